@@ -1,3 +1,173 @@
 import Driver.Common
--- stub driver (not yet implemented)
-def main : IO Unit := Driver.run () (fun s _ => (s, "bad-op"))
+import SSV.Model.Pipe
+/-
+ssv_c15 — lock-step acceptance driver for the pipe model.
+
+The harness drives the real `netio.NewPipe` inside a synctest bubble: it issues ONE call, waits until every
+goroutine is durably blocked (quiescence), and reports which calls returned with what.  The driver keeps the
+SET of model states (one `SSV.Pipe.State` per direction) that are consistent with everything observed so far:
+after every call it explores ALL maximal runs of internal steps (`SSV.Pipe.succs`) to the quiescent states,
+then filters by the observations.  Answer `ok <k>` = k candidate states remain; `reject …` = the implementation
+did something no interleaving of the model can do.
+
+lines:  new <nthreads> | call <t> <end> r <cap> | call <t> <end> w <hex> | call <t> <end> wt <ff:0|1> <cap,cap,…|->
+        call <t> <end> cr|cw|c | call <t> <end> srd|swd|sd <zero|future|past> | advance
+        ret <t> <n> <err> | pend <t> | stream <dir> <hex> | quiet
+-/
+open SSV SSV.Pipe
+
+structure Cand where
+  d0 : State        -- end 0 writes, end 1 reads
+  d1 : State        -- end 1 writes, end 0 reads
+  memo : RErr       -- first half of a SetDeadline
+
+structure DState where
+  n : Nat
+  cands : List Cand
+  where_ : List (Nat × Nat × Bool)   -- thread ↦ (direction of its current call, composite-sd?)
+
+def skey (n : Nat) (s : State) :=
+  ((List.range n).map s.thr, s.done, s.err, s.mu, s.rdl, s.wdl, s.panicked, s.hs, s.wlog, s.rret)
+
+def dedupS (n : Nat) (l : List State) : List State :=
+  l.foldl (fun acc s => if acc.any (fun t => skey n t == skey n s) then acc else acc ++ [s]) []
+
+/-- all quiescent states reachable by internal steps -/
+partial def quiesce (n : Nat) (frontier acc : List State) : List State :=
+  match frontier with
+  | [] => acc
+  | _ =>
+    let st := frontier.map (fun s => (s, if s.panicked then [] else succs n s))
+    let term := st.filterMap (fun p => if p.2.isEmpty then some p.1 else none)
+    quiesce n (dedupS n (st.flatMap (·.2))) (dedupS n (acc ++ term))
+
+def ckey (n : Nat) (c : Cand) := (skey n c.d0, skey n c.d1, c.memo)
+
+def dedupC (n : Nat) (l : List Cand) : List Cand :=
+  l.foldl (fun acc s => if acc.any (fun t => ckey n t == ckey n s) then acc else acc ++ [s]) []
+
+def Cand.dir (c : Cand) (d : Nat) : State := if d == 0 then c.d0 else c.d1
+def Cand.setDir (c : Cand) (d : Nat) (s : State) : Cand := if d == 0 then { c with d0 := s } else { c with d1 := s }
+
+/-- start `op` by thread `t` in direction `d` of every candidate and run to quiescence -/
+def startIn (ds : DState) (t d : Nat) (op : Op) : List Cand :=
+  dedupC ds.n <| ds.cands.flatMap fun c =>
+    match start (c.dir d) t op with
+    | none => []
+    | some s => (quiesce ds.n [s] []).map (c.setDir d)
+
+def errName : RErr → String
+  | .nil => "nil" | .eof => "eof" | .closedPipe => "closed" | .timeout => "timeout" | .sink => "sink"
+  | .custom k => s!"custom{k}"
+
+def retOf : PC → Option (Nat × RErr)
+  | .rRet n e => some (n, e)
+  | .wRet n e _ => some (n, e)
+  | .uRet e => some (0, e)
+  | _ => none
+
+def parseKind : String → Option DKind
+  | "zero" => some .zero | "future" => some .future | "past" => some .past | _ => none
+
+def parsePlan (s : String) : Option (List Nat) :=
+  if s == "-" then some [] else (s.splitOn ",").mapM (·.toNat?)
+
+def answer (ds : DState) (cands : List Cand) (why : String) : DState × String :=
+  if cands.isEmpty then (ds, "reject " ++ why) else ({ ds with cands := cands }, s!"ok {cands.length}")
+
+/-- finish thread t's returned unit call in direction d (used between the halves of Close / SetDeadline) -/
+def finishUnit (ds : DState) (cs : List Cand) (t d : Nat) (keep : Bool) : List Cand :=
+  cs.filterMap fun c =>
+    match (c.dir d).thr t with
+    | .uRet e => (finish (c.dir d) t).map fun s => { (c.setDir d s) with memo := if keep then e else c.memo }
+    | _ => none
+
+def describe (ds : DState) (t d : Nat) : String :=
+  String.intercalate "|" ((ds.cands.map fun c => match retOf ((c.dir d).thr t) with
+    | some (n, e) => s!"{n},{errName e}"
+    | none => if (c.dir d).thr t = .idle then "idle" else "pending").eraseDups)
+
+def stepC15 (ds : DState) (line : String) : DState × String :=
+  let setWhere (t d : Nat) (sd : Bool) : List (Nat × Nat × Bool) := (t, d, sd) :: ds.where_.filter (·.1 != t)
+  match fields line with
+  | ["new", n] => match n.toNat? with
+      | some k => ({ n := k, cands := [{ d0 := init, d1 := init, memo := .nil }], where_ := [] }, "ok 1")
+      | none => (ds, "bad-op")
+  | ["call", t, e, "r", cap] => match t.toNat?, e.toNat?, cap.toNat? with
+      | some t, some e, some cap =>
+          answer { ds with where_ := setWhere t (1 - e) false } (startIn ds t (1 - e) (.read cap)) "thread-busy"
+      | _, _, _ => (ds, "bad-op")
+  | ["call", t, e, "wt", ff, plan] => match t.toNat?, e.toNat?, parsePlan plan with
+      | some t, some e, some plan =>
+          answer { ds with where_ := setWhere t (1 - e) false } (startIn ds t (1 - e) (.writeTo plan (ff == "1"))) "thread-busy"
+      | _, _, _ => (ds, "bad-op")
+  | ["call", t, e, "w", hex] => match t.toNat?, e.toNat?, ofHex? hex with
+      | some t, some e, some b =>
+          answer { ds with where_ := setWhere t e false } (startIn ds t e (.write b)) "thread-busy"
+      | _, _, _ => (ds, "bad-op")
+  | ["call", t, e, "cr"] => match t.toNat?, e.toNat? with
+      | some t, some e => answer { ds with where_ := setWhere t (1 - e) false } (startIn ds t (1 - e) (.closeRead none)) "thread-busy"
+      | _, _ => (ds, "bad-op")
+  | ["call", t, e, "cw"] => match t.toNat?, e.toNat? with
+      | some t, some e => answer { ds with where_ := setWhere t e false } (startIn ds t e (.closeWrite none)) "thread-busy"
+      | _, _ => (ds, "bad-op")
+  | ["call", t, e, "c"] => match t.toNat?, e.toNat? with
+      | some t, some e =>
+          let c1 := finishUnit ds (startIn ds t (1 - e) (.closeRead none)) t (1 - e) false
+          answer { ds with where_ := setWhere t e false } (startIn { ds with cands := c1 } t e (.closeWrite none)) "thread-busy"
+      | _, _ => (ds, "bad-op")
+  | ["call", t, e, "srd", k] => match t.toNat?, e.toNat?, parseKind k with
+      | some t, some e, some k => answer { ds with where_ := setWhere t (1 - e) false } (startIn ds t (1 - e) (.setRD k)) "thread-busy"
+      | _, _, _ => (ds, "bad-op")
+  | ["call", t, e, "swd", k] => match t.toNat?, e.toNat?, parseKind k with
+      | some t, some e, some k => answer { ds with where_ := setWhere t e false } (startIn ds t e (.setWD k)) "thread-busy"
+      | _, _, _ => (ds, "bad-op")
+  | ["call", t, e, "sd", k] => match t.toNat?, e.toNat?, parseKind k with
+      | some t, some e, some k =>
+          let c1 := finishUnit ds (startIn ds t (1 - e) (.setRD k)) t (1 - e) true
+          answer { ds with where_ := setWhere t e true } (startIn { ds with cands := c1 } t e (.setWD k)) "thread-busy"
+      | _, _, _ => (ds, "bad-op")
+  | ["advance"] =>
+      let fireAll (s : State) : State :=
+        let s1 := (fire s false).getD s
+        (fire s1 true).getD s1
+      let cs := dedupC ds.n <| ds.cands.flatMap fun c =>
+        (quiesce ds.n [fireAll c.d0] []).flatMap fun a => (quiesce ds.n [fireAll c.d1] []).map fun b => { c with d0 := a, d1 := b }
+      answer ds cs "advance"
+  | ["ret", t, n, err] => match t.toNat?, n.toNat? with
+      | some t, some n =>
+          match ds.where_.find? (·.1 == t) with
+          | none => (ds, "reject ret-of-unknown-call")
+          | some (_, d, sd) =>
+              let cs := ds.cands.filterMap fun c =>
+                let s := c.dir d
+                if s.panicked then none else
+                match retOf (s.thr t) with
+                | some (m, e) =>
+                    let e' := if sd && c.memo != .nil then c.memo else e
+                    if m == n && errName e' == err then (finish s t).map fun s' => { (c.setDir d s') with memo := .nil } else none
+                | none => none
+              answer ds (dedupC ds.n cs) s!"ret t={t} impl={n},{err} model={describe ds t d}"
+      | _, _ => (ds, "bad-op")
+  | ["pend", t] => match t.toNat? with
+      | some t =>
+          match ds.where_.find? (·.1 == t) with
+          | none => (ds, "reject pend-of-unknown-call")
+          | some (_, d, _) =>
+              let cs := ds.cands.filter fun c =>
+                let s := c.dir d
+                !s.panicked && (retOf (s.thr t)).isNone && s.thr t != .idle
+              answer ds cs s!"pend t={t} model={describe ds t d}"
+      | none => (ds, "bad-op")
+  | ["stream", d, hex] => match d.toNat?, ofHex? hex with
+      | some d, some b =>
+          let cs := ds.cands.filter fun c => (c.dir d).rret == b
+          answer ds cs s!"stream d={d} model={String.intercalate "|" ((ds.cands.map fun c => toHexField (c.dir d).rret).eraseDups)}"
+      | _, _ => (ds, "bad-op")
+  | ["quiet"] =>
+      -- no candidate may have a panicked direction
+      let cs := ds.cands.filter fun c => !c.d0.panicked && !c.d1.panicked
+      answer ds cs "model-panicked"
+  | _ => (ds, "bad-op")
+
+def main : IO Unit := Driver.run ({ n := 0, cands := [], where_ := [] } : DState) stepC15
